@@ -52,6 +52,19 @@ PATH, REAL = "t.nc", "real.nc"
 SENT = b"SENTINEL"
 MAXREC = 6
 
+# ---- switches (True = the assertion / sub-domain is active).  A switch is turned off only for a confirmed defect that is kept
+# ---- as a replay under replays/C03/ (the replay carries "sw" with the switch on), so that the search continues past it.
+SWITCHES = {
+    # ncmpi_inq_header_extent on a file that was OPENED while it has no variables returns 0 (< header size) until the next
+    # enddef: compute_var_shape() in ncmpio_header_get.c returns before setting ncp->begin_var when vars.ndefined == 0.
+    # Confirmed defect, replays/C03/hext-zero-after-open-without-variables.json
+    "hext_after_open_without_vars": False,
+}
+
+
+def sw(case, name):
+    return bool((case.get("sw") or {}).get(name, SWITCHES[name]))
+
 # ------------------------------------------------------------------ names
 A_FIRST = "abcxyzABZ_0159"
 A_MID = A_FIRST + " .-+@"
@@ -128,6 +141,7 @@ class Sim:
         self.data = {}        # vi -> {rec|-1: [external big-endian bytes, state 1 written / 2 flushed]}
         self.nenddef = 0
         self.redefs = 0
+        self.opened_novars = False   # the file was opened while it had no variables and no enddef happened since
 
     # -- shape helpers
     def is_rec(self, vi):
@@ -187,6 +201,7 @@ class Sim:
         elif k in ("enddef", "_enddef"):
             self.indef = False
             self.nenddef += 1
+            self.opened_novars = False
         elif k == "redef":
             self.indef = True
             self.redefs += 1
@@ -207,6 +222,7 @@ class Sim:
                 if self.indef:
                     self.nenddef += 1
                 self.indef = False
+                self.opened_novars = k == "reopen" and not self.f.vars
         else:
             raise ValueError(k)
 
@@ -580,6 +596,7 @@ def build(case):
         pt.nvars = len(sim.f.vars)
         pt.nfix, pt.nrec = len(sim.fix_vars()), len(sim.rec_vars())
         pt.redefs = sim.redefs
+        pt.opened_novars = sim.opened_novars
         pt.data = sim.expected_data(flushed_only=kind not in ("sync", "close"))
         points.append(pt)
         return pt
@@ -731,7 +748,7 @@ def check_point(case, pt, prev, d, res, k):
     # written data
     for vi, recno, want_b in pt.data:
         arr = cdfspec.read_var(raw, cf, vi)
-        got_b = (arr if recno < 0 else arr[recno]).tobytes()
+        got_b = (arr if recno < 0 else arr[recno:recno + 1]).tobytes()
         if got_b != want_b:
             out.append(prob("data", "%s: variable %d%s holds %s, written %s (begin %d, recsize %d)" % (
                 w, vi, "" if recno < 0 else " record %d" % recno, got_b.hex()[:64], want_b.hex()[:64], cf.vars[vi].begin, cf.recsize()),
@@ -752,7 +769,9 @@ def check_point(case, pt, prev, d, res, k):
                 out.append(prob("report_hsize", "%s: inq_header_size = %d on rank %d, the header in the file has %d bytes" % (w, dd["hsize"], rk, hsize), when=pt.kind))
             if extent is not None and dd["hext"] != extent:
                 out.append(prob("report_hext", "%s: inq_header_extent = %d on rank %d, the first variable begins at %d" % (w, dd["hext"], rk, extent), when=pt.kind))
-            if extent is None and dd["hext"] < hsize:
+            if extent is None and pt.opened_novars and not sw(case, "hext_after_open_without_vars"):
+                dd = dict(dd, hext=None)          # excluded (counted in classify)
+            elif extent is None and dd["hext"] < hsize:
                 out.append(prob("report_hext", "%s: inq_header_extent = %d on rank %d < header size %d" % (w, dd["hext"], rk, hsize), when=pt.kind))
             if dd["recsize"] != cf.recsize():
                 out.append(prob("report_recsize", "%s: inq_recsize = %d on rank %d, the layout implies %d" % (w, dd["recsize"], rk, cf.recsize()), when=pt.kind))
@@ -762,7 +781,8 @@ def check_point(case, pt, prev, d, res, k):
             if offs != begins:
                 out.append(prob("report_varoffset", "%s: inq_varoffset = %s on rank %d, the file header holds %s" % (w, offs, rk, begins), when=pt.kind))
             hext_seen = dd["hext"]
-            if prev is not None and prev.get("hext") is not None and dd["hext"] < prev["hext"]:
+            # without variables the file does not record the extent, so it need not survive close + open
+            if prev is not None and prev.get("hext") is not None and dd["hext"] is not None and pt.kind != "close" and dd["hext"] < prev["hext"]:
                 out.append(prob("extent_decreased", "%s: inq_header_extent decreased from %d to %d" % (w, prev["hext"], dd["hext"]), when=pt.kind))
     # clobber
     if getattr(pt, "final", False) and case["clobber"]:
@@ -777,7 +797,7 @@ def check_point(case, pt, prev, d, res, k):
             bound = max(bound, first_rec + cf.numrecs * cf.recsize())
         if len(raw) > bound:
             out.append(prob("length", "%s: file has %d bytes, the layout implies at most %d" % (w, len(raw), bound), clobber=case["clobber"]))
-    return out, {"begins": begins, "extent": extent, "hext": hext_seen if hext_seen is not None else (prev or {}).get("hext")}
+    return out, {"begins": begins, "extent": extent, "hext": hext_seen}
 
 
 def evaluate(case, b, res, d):
@@ -802,52 +822,46 @@ def classify(case, b):
     labels = {"fmt%d" % case["fmt"], "k%d" % case["k"], "clobber_%s" % (case["clobber"] or "none")}
     hint = ("info" if case["info"] else "") + ("env" if case["env"] else "")
     labels.add("hint_" + (hint or "none"))
-    first = True
-    arg_align = False
-    nt_schema = False
-    redef_after = False
-    indef_blocks = 0
+    arg_align = nt_schema = redef_after = False
+    sim = Sim(case["fmt"])
     for op in case["ops"]:
         kd = op["op"]
         if kd in ("enddef", "_enddef"):
-            if first:
+            if sim.nenddef == 0:
                 labels.add("first_" + kd)
                 if kd == "_enddef" and (op["args"][1] or op["args"][3]):
                     arg_align = True
                     labels.add("first__enddef_align_args")
                 if kd == "_enddef" and (op["args"][0] or op["args"][2]):
                     labels.add("first__enddef_minfree")
+                if (case["info"] or case["env"]) and kd == "_enddef" and (op["args"][1] or op["args"][3]):
+                    labels.add("first_enddef_hint_and_arg")
             else:
                 labels.add("redef_then_" + kd)
-            first = False
-        elif kd == "redef":
-            indef_blocks += 1
-            redef_after = True
-        elif kd in ("def_dim", "def_var", "put_att", "del_att", "rename_dim", "rename_var", "rename_att") and indef_blocks:
-            pass
-    # kinds of operation after the first enddef
-    sim = Sim(case["fmt"])
-    for op in case["ops"]:
-        kd = op["op"]
-        if sim.nenddef > 0:
-            if sim.indef and kd not in ("enddef", "_enddef"):
+        elif sim.nenddef > 0:
+            if kd == "redef":
+                redef_after = True
+            elif sim.indef:
                 labels.add("redef_" + kd)
                 if kd == "def_var":
                     vrec = bool(op["dims"]) and sim.f.dims[op["dims"][0]][1] == 0
                     labels.add("redef_add_recvar" if vrec else "redef_add_fixvar")
                     if vrec and len(sim.rec_vars()) == 1:
                         labels.add("redef_second_recvar_unpacks")
-            elif not sim.indef and kd in ("put_att", "rename_dim", "rename_var", "rename_att"):
+            elif kd in ("put_att", "rename_dim", "rename_var", "rename_att"):
                 labels.add("datamode_" + kd)
             elif kd in ("write", "sync", "reopen"):
                 labels.add("op_" + kd)
         sim.apply(op)
-        if not sim.indef and sim.fix_vars() and sim.rec_vars():
-            nt_schema = True
-        if not sim.indef and len(sim.rec_vars()) == 1:
-            vi = sim.rec_vars()[0]
-            if (sim.count(vi) * M.XT_SIZE[sim.f.vars[vi].xt]) % 4:
-                labels.add("one_recvar_packed_unaligned")
+        if not sim.indef:
+            if sim.fix_vars() and sim.rec_vars():
+                nt_schema = True
+            if len(sim.rec_vars()) == 1:
+                vi = sim.rec_vars()[0]
+                if (sim.count(vi) * M.XT_SIZE[sim.f.vars[vi].xt]) % 4:
+                    labels.add("one_recvar_packed_unaligned")
+            if sim.opened_novars and not sw(case, "hext_after_open_without_vars"):
+                labels.add("excluded_hext_after_open_without_vars")
     if sim.indef:
         labels.add("close_in_define_mode")
         if sim.fix_vars() and sim.rec_vars():
@@ -856,13 +870,20 @@ def classify(case, b):
         labels.add("numrecs>0")
     if not sim.f.vars:
         labels.add("no_variables")
-    if any(len(hexb(op["name"])) >= 250 for op in case["ops"] if "name" in op):
+    if sim.f.vars and not sim.fix_vars():
+        labels.add("only_record_variables")
+    if sim.f.vars and not sim.rec_vars():
+        labels.add("only_fixed_variables")
+    names = [hexb(op[kk]) for op in case["ops"] for kk in ("name", "new") if kk in op]
+    if any(len(n) >= 250 for n in names):
         labels.add("name_250+_bytes")
-    if any(max(hexb(op["name"])) >= 0x80 for op in case["ops"] if "name" in op):
+    if any(max(n) >= 0x80 for n in names):
         labels.add("name_utf8")
     if any(op["op"] == "put_att" and len(op.get("vals", hexb(op.get("text", "")))) == 0 for op in case["ops"]):
         labels.add("att_len0")
     nt = nt_schema and (bool(case["info"]) or bool(case["env"]) or arg_align or redef_after)
+    if nt:
+        labels.add("nontrivial")
     return labels, nt
 
 
